@@ -188,6 +188,7 @@ package main
 //@   prop C17
 //@   nosafety registry entries are non-nil
 //@   loop 1 body @one-line-per-registered-checker emitted(fmtprinted) == old(emitted(fmtprinted)) + 1
+//@   call fmt.Printf requires @line-starts-with-the-full-checker-name hasPrefix(arg0, "%s ") && len(arg1) >= 1 && unbox(arg1[0], "string") == info.Name
 
 // the CLI splits its -enable / -disable values exactly like the analyzer front-end (items are TrimSpace'd)
 //@ func splitList
